@@ -817,6 +817,34 @@ def call_blocks(body, *names, pred=None):
     return out
 
 
+def ok_edge_dominates(f, b, site_bb, callee_pat, extra=None, sl=None):
+    """Is block `site_bb` dominated by the SUCCESS edge of a test on the Result returned by a call matching `callee_pat` ("call:<name>"
+    atom pattern)?  Success edge = Continue of `?`, the Ok arm of a match / if-let on the Result (also the fall-through of
+    `if let Err(e) = r { return .. }`), the true edge of is_ok(), the false edge of is_err().  `extra(atoms)` may add a condition on
+    the tested value's origin."""
+    sl = sl or Slicer(f, b)
+    for d in b.dominators().get(site_bb, ()):
+        tt = b.term(d)
+        if not tt or tt["k"] != "switch":
+            continue
+        a = sl.of_operand(tt["op"])
+        if not any_atom(a, callee_pat) or (extra is not None and not extra(a)):
+            continue
+        cont = []
+        if "discr" in a:
+            cont = [tg for v, tg in tt["targets"] if v == 0]
+            if not cont and len(tt["targets"]) == 1 and tt["targets"][0][0] == 1 and (b.term(tt["otherwise"]) or {}).get("k") != "unreachable":
+                cont = [tt["otherwise"]]
+        elif tt.get("ty") == "bool" and (any_atom(a, "call:is_ok") or any_atom(a, "call:is_err")):
+            te = bool_edge_targets(b, d)
+            if te:
+                neg = ("op:Not" in a) != bool(any_atom(a, "call:is_err"))
+                cont = [te[1] if neg else te[0]]
+        if cont and b.dominates(cont[0], site_bb):
+            return True
+    return False
+
+
 def call_or_inlined(body, *names):
     """blocks where a function named by `names` is called, or - in a normalised view - where its inlined copy starts"""
     out = []
